@@ -84,7 +84,9 @@ func (smpStateBase) receiveMessage1(c *Conversation, m smp1Message) (smpState, s
 }
 
 func (smpStateBase) continueMessage1(c *Conversation, mutualSecret []byte) (smpState, smpMessage, error) {
-	return abortState(errNotWaitingForSMPSecret)
+	// nobody asked for a secret: the call is refused and changes nothing (resetting the state here,
+	// without telling the peer, made the next run fail)
+	return c.smp.state, nil, errNotWaitingForSMPSecret
 }
 
 func (smpStateBase) receiveMessage2(c *Conversation, m smp2Message) (smpState, smpMessage, error) {
